@@ -434,82 +434,82 @@ theorem unifyHead_sound (t : Tuple) (head : Atom) (β0 : Bindings)
       · simp at h'
       · exact h' 
 
-/-! ### candidates of `enumerate_derived_candidates` against a pattern without repeated variables -/
+/-! ### candidates of `enumerate_derived_candidates` (with the consistency check for repeated variables) -/
 
-
-theorem enum_sound (β : Bindings) : ∀ (args : List Term) (t : Tuple) (nb0 : Bindings),
-    t.length = args.length → (∀ a ∈ args, a ≠ Term.other) → GoodT t → (varsOf args).Nodup →
-    Fresh nb0 β → (∀ x ∈ varsOf args, nb0.lookup x = none) →
+theorem enum_sound (β : Bindings) : ∀ (args : List Term) (t : Tuple) (nb0 nb : Bindings),
+    t.length = args.length → (∀ a ∈ args, a ≠ Term.other) → GoodT t → Fresh nb0 β →
     enumMatchesPattern (args.map (resolveTerm β)) t = true →
-    Ext nb0 (enumNewBinds (args.map (resolveTerm β)) t nb0) ∧
-    Fresh (enumNewBinds (args.map (resolveTerm β)) t nb0) β ∧
-    (GoodB nb0 → GoodB (enumNewBinds (args.map (resolveTerm β)) t nb0)) ∧
-    ∀ nbF, Ext (enumNewBinds (args.map (resolveTerm β)) t nb0) nbF → Fresh nbF β → argsMatch (nbF ++ β) args t = true
-  | [], [], nb0, _, _, _, _, hf, _, _ => by
-    simp only [List.map_nil, enumNewBinds]
+    enumNewBinds (args.map (resolveTerm β)) t nb0 = some nb →
+    Ext nb0 nb ∧ Fresh nb β ∧ (GoodB nb0 → GoodB nb) ∧
+    ∀ nbF, Ext nb nbF → Fresh nbF β → argsMatch (nbF ++ β) args t = true
+  | [], [], nb0, nb, _, _, _, hf, _, hn => by
+    simp only [List.map_nil, enumNewBinds, Option.some.injEq] at hn
+    subst hn
     exact ⟨Ext.refl _, hf, id, fun _ _ _ => rfl⟩
-  | [], _ :: _, _, hl, _, _, _, _, _, _ => by simp at hl
-  | _ :: _, [], _, hl, _, _, _, _, _, _ => by simp at hl
-  | a :: as, v :: vs, nb0, hl, hs, hg, hnd, hf, hz, hm => by
+  | [], _ :: _, _, _, hl, _, _, _, _, _ => by simp at hl
+  | _ :: _, [], _, _, hl, _, _, _, _, _ => by simp at hl
+  | a :: as, v :: vs, nb0, nb, hl, hs, hg, hf, hm, hn => by
     have hl' : vs.length = as.length := by simpa using hl
     have hs' : ∀ a' ∈ as, a' ≠ Term.other := fun a' ha' => hs a' (List.mem_cons_of_mem _ ha')
     have hg' : GoodT vs := fun w hw => hg w (List.mem_cons_of_mem _ hw)
     have hgv : GoodV v := hg v List.mem_cons_self
     cases a with
     | var x =>
-      have hnd' : (varsOf as).Nodup := by
-        simp only [varsOf, List.filterMap_cons] at hnd
-        exact (List.nodup_cons.mp hnd).2
-      have hxn : x ∉ varsOf as := by
-        simp only [varsOf, List.filterMap_cons] at hnd
-        exact (List.nodup_cons.mp hnd).1
       cases hx : β.lookup x with
       | some e =>
-        simp only [List.map_cons, resolveTerm, hx, enumMatchesPattern, enumNewBinds, Bool.and_eq_true, beq_iff_eq] at hm ⊢
-        obtain ⟨e1, e2, e3, e4⟩ := enum_sound β as vs nb0 hl' hs' hg' hnd' hf
-          (fun y hy => hz y (by simp only [varsOf, List.filterMap_cons]; exact List.mem_cons_of_mem _ hy)) hm.2
+        simp only [List.map_cons, resolveTerm, hx, enumMatchesPattern, enumNewBinds, Bool.and_eq_true, beq_iff_eq] at hm hn
+        obtain ⟨e1, e2, e3, e4⟩ := enum_sound β as vs nb0 nb hl' hs' hg' hf hm.2 hn
         refine ⟨e1, e2, e3, ?_⟩
         intro nbF hE hF
         simp only [argsMatch, Bool.and_eq_true]
         refine ⟨?_, e4 nbF hE hF⟩
         simp only [argMatches, lookup_append]
-        cases hn : nbF.lookup x with
+        cases hnl : nbF.lookup x with
         | none => simp only [hx]; rw [hm.1]; exact hgv
-        | some w => have := hF x (by simp [hn]); rw [hx] at this; cases this
+        | some w => have := hF x (by simp [hnl]); rw [hx] at this; cases this
       | none =>
-        simp only [List.map_cons, resolveTerm, hx, enumMatchesPattern, enumNewBinds] at hm ⊢
-        have hz0 : nb0.lookup x = none := hz x (by simp [varsOf])
-        have hf1 : Fresh ((x, v) :: nb0) β := by
-          intro y hy
-          by_cases hyx : y = x
-          · subst hyx; exact hx
-          · rw [lookup_cons_ne x y v nb0 hyx] at hy; exact hf y hy
-        have hz1 : ∀ y ∈ varsOf as, ((x, v) :: nb0).lookup y = none := by
-          intro y hy
-          have hyx : y ≠ x := by intro he; subst he; exact hxn hy
-          rw [lookup_cons_ne x y v nb0 hyx]
-          exact hz y (by simp only [varsOf, List.filterMap_cons]; exact List.mem_cons_of_mem _ hy)
-        obtain ⟨e1, e2, e3, e4⟩ := enum_sound β as vs ((x, v) :: nb0) hl' hs' hg' hnd' hf1 hz1 hm
-        refine ⟨?_, e2, ?_, ?_⟩
-        · intro y w hy
-          have hyx : y ≠ x := by intro he; subst he; rw [hz0] at hy; cases hy
-          exact e1 y w (by rw [lookup_cons_ne x y v nb0 hyx]; exact hy)
-        · intro hg0
-          apply e3
-          intro p hp
-          rcases List.mem_cons.mp hp with rfl | hp
-          · exact hgv
-          · exact hg0 p hp
-        · intro nbF hE hF
-          simp only [argsMatch, Bool.and_eq_true]
-          refine ⟨?_, e4 nbF hE hF⟩
-          have : nbF.lookup x = some v := hE x v (e1 x v (lookup_cons_self x v nb0))
-          simp only [argMatches, lookup_append, this]
-          exact hgv
+        simp only [List.map_cons, resolveTerm, hx, enumMatchesPattern, enumNewBinds] at hm hn
+        cases hn0 : nb0.lookup x with
+        | some e =>
+          simp only [hn0] at hn
+          split at hn
+          · rename_i hev
+            have hev' : e = v := by simpa using hev
+            obtain ⟨e1, e2, e3, e4⟩ := enum_sound β as vs nb0 nb hl' hs' hg' hf hm hn
+            refine ⟨e1, e2, e3, ?_⟩
+            intro nbF hE hF
+            simp only [argsMatch, Bool.and_eq_true]
+            refine ⟨?_, e4 nbF hE hF⟩
+            simp only [argMatches, lookup_append, hE x e (e1 x e hn0)]
+            rw [hev']; exact hgv
+          · cases hn
+        | none =>
+          simp only [hn0] at hn
+          have hf1 : Fresh ((x, v) :: nb0) β := by
+            intro y hy
+            by_cases hyx : y = x
+            · subst hyx; exact hx
+            · rw [lookup_cons_ne x y v nb0 hyx] at hy; exact hf y hy
+          obtain ⟨e1, e2, e3, e4⟩ := enum_sound β as vs ((x, v) :: nb0) nb hl' hs' hg' hf1 hm hn
+          refine ⟨?_, e2, ?_, ?_⟩
+          · intro y w hy
+            have hyx : y ≠ x := by intro he; subst he; rw [hn0] at hy; cases hy
+            exact e1 y w (by rw [lookup_cons_ne x y v nb0 hyx]; exact hy)
+          · intro hg0
+            apply e3
+            intro p hp
+            rcases List.mem_cons.mp hp with rfl | hp
+            · exact hgv
+            · exact hg0 p hp
+          · intro nbF hE hF
+            simp only [argsMatch, Bool.and_eq_true]
+            refine ⟨?_, e4 nbF hE hF⟩
+            have : nbF.lookup x = some v := hE x v (e1 x v (lookup_cons_self x v nb0))
+            simp only [argMatches, lookup_append, this]
+            exact hgv
     | wild =>
-      have hnd' : (varsOf as).Nodup := by simpa [varsOf] using hnd
-      simp only [List.map_cons, resolveTerm, enumMatchesPattern, enumNewBinds] at hm ⊢
-      obtain ⟨e1, e2, e3, e4⟩ := enum_sound β as vs nb0 hl' hs' hg' hnd' hf (fun y hy => hz y (by simpa only [varsOf, List.filterMap_cons] using hy)) hm
+      simp only [List.map_cons, resolveTerm, enumMatchesPattern, enumNewBinds] at hm hn
+      obtain ⟨e1, e2, e3, e4⟩ := enum_sound β as vs nb0 nb hl' hs' hg' hf hm hn
       refine ⟨e1, e2, e3, ?_⟩
       intro nbF hE hF
       simp only [argsMatch, Bool.and_eq_true]
@@ -518,9 +518,8 @@ theorem enum_sound (β : Bindings) : ∀ (args : List Term) (t : Tuple) (nb0 : B
       cases hc : termToValue (Term.int n) with
       | none => simp [termToValue] at hc
       | some e =>
-        simp only [List.map_cons, resolveTerm, hc, enumMatchesPattern, enumNewBinds, Bool.and_eq_true, beq_iff_eq] at hm ⊢
-        have hnd' : (varsOf as).Nodup := by simpa [varsOf] using hnd
-        obtain ⟨e1, e2, e3, e4⟩ := enum_sound β as vs nb0 hl' hs' hg' hnd' hf (fun y hy => hz y (by simpa only [varsOf, List.filterMap_cons] using hy)) hm.2
+        simp only [List.map_cons, resolveTerm, hc, enumMatchesPattern, enumNewBinds, Bool.and_eq_true, beq_iff_eq] at hm hn
+        obtain ⟨e1, e2, e3, e4⟩ := enum_sound β as vs nb0 nb hl' hs' hg' hf hm.2 hn
         refine ⟨e1, e2, e3, ?_⟩
         intro nbF hE hF
         simp only [argsMatch, Bool.and_eq_true]
@@ -530,9 +529,8 @@ theorem enum_sound (β : Bindings) : ∀ (args : List Term) (t : Tuple) (nb0 : B
       cases hc : termToValue (Term.str n) with
       | none => simp [termToValue] at hc
       | some e =>
-        simp only [List.map_cons, resolveTerm, hc, enumMatchesPattern, enumNewBinds, Bool.and_eq_true, beq_iff_eq] at hm ⊢
-        have hnd' : (varsOf as).Nodup := by simpa [varsOf] using hnd
-        obtain ⟨e1, e2, e3, e4⟩ := enum_sound β as vs nb0 hl' hs' hg' hnd' hf (fun y hy => hz y (by simpa only [varsOf, List.filterMap_cons] using hy)) hm.2
+        simp only [List.map_cons, resolveTerm, hc, enumMatchesPattern, enumNewBinds, Bool.and_eq_true, beq_iff_eq] at hm hn
+        obtain ⟨e1, e2, e3, e4⟩ := enum_sound β as vs nb0 nb hl' hs' hg' hf hm.2 hn
         refine ⟨e1, e2, e3, ?_⟩
         intro nbF hE hF
         simp only [argsMatch, Bool.and_eq_true]
@@ -542,9 +540,8 @@ theorem enum_sound (β : Bindings) : ∀ (args : List Term) (t : Tuple) (nb0 : B
       cases hc : termToValue (Term.bool n) with
       | none => simp [termToValue] at hc
       | some e =>
-        simp only [List.map_cons, resolveTerm, hc, enumMatchesPattern, enumNewBinds, Bool.and_eq_true, beq_iff_eq] at hm ⊢
-        have hnd' : (varsOf as).Nodup := by simpa [varsOf] using hnd
-        obtain ⟨e1, e2, e3, e4⟩ := enum_sound β as vs nb0 hl' hs' hg' hnd' hf (fun y hy => hz y (by simpa only [varsOf, List.filterMap_cons] using hy)) hm.2
+        simp only [List.map_cons, resolveTerm, hc, enumMatchesPattern, enumNewBinds, Bool.and_eq_true, beq_iff_eq] at hm hn
+        obtain ⟨e1, e2, e3, e4⟩ := enum_sound β as vs nb0 nb hl' hs' hg' hf hm.2 hn
         refine ⟨e1, e2, e3, ?_⟩
         intro nbF hE hF
         simp only [argsMatch, Bool.and_eq_true]
@@ -554,9 +551,8 @@ theorem enum_sound (β : Bindings) : ∀ (args : List Term) (t : Tuple) (nb0 : B
       cases hc : termToValue (Term.flt n) with
       | none => simp [termToValue] at hc
       | some e =>
-        simp only [List.map_cons, resolveTerm, hc, enumMatchesPattern, enumNewBinds, Bool.and_eq_true, beq_iff_eq] at hm ⊢
-        have hnd' : (varsOf as).Nodup := by simpa [varsOf] using hnd
-        obtain ⟨e1, e2, e3, e4⟩ := enum_sound β as vs nb0 hl' hs' hg' hnd' hf (fun y hy => hz y (by simpa only [varsOf, List.filterMap_cons] using hy)) hm.2
+        simp only [List.map_cons, resolveTerm, hc, enumMatchesPattern, enumNewBinds, Bool.and_eq_true, beq_iff_eq] at hm hn
+        obtain ⟨e1, e2, e3, e4⟩ := enum_sound β as vs nb0 nb hl' hs' hg' hf hm.2 hn
         refine ⟨e1, e2, e3, ?_⟩
         intro nbF hE hF
         simp only [argsMatch, Bool.and_eq_true]
@@ -626,40 +622,51 @@ theorem matchArgs_keys (β : Bindings) : ∀ (args : List Term) (t : Tuple) (nb0
           · exact Or.inl h1
         · exact Or.inr (lift h1)
 
-theorem enumNewBinds_keys (β : Bindings) : ∀ (args : List Term) (t : Tuple) (nb0 : Bindings),
-    ∀ q ∈ enumNewBinds (args.map (resolveTerm β)) t nb0, q ∈ nb0 ∨ q.1 ∈ varsOf args
-  | [], _, nb0, q, hq => by simp only [List.map_nil, enumNewBinds] at hq; exact Or.inl hq
-  | _ :: _, [], nb0, q, hq => by
-    simp only [List.map_cons] at hq
-    unfold enumNewBinds at hq
-    split at hq <;> first | exact Or.inl hq | simp_all
-  | a :: as, v :: vs, nb0, q, hq => by
+theorem enumNewBinds_keys (β : Bindings) : ∀ (args : List Term) (t : Tuple) (nb0 nb : Bindings),
+    enumNewBinds (args.map (resolveTerm β)) t nb0 = some nb → ∀ q ∈ nb, q ∈ nb0 ∨ q.1 ∈ varsOf args
+  | [], _, nb0, nb, h, q, hq => by
+    simp only [List.map_nil, enumNewBinds, Option.some.injEq] at h; subst h; exact Or.inl hq
+  | _ :: _, [], nb0, nb, h, q, hq => by
+    simp only [List.map_cons] at h
+    unfold enumNewBinds at h
+    split at h <;> simp_all
+  | a :: as, v :: vs, nb0, nb, h, q, hq => by
     have lift : q.1 ∈ varsOf as → q.1 ∈ varsOf (a :: as) := by
       intro hh
       simp only [varsOf, List.filterMap_cons]
       split
       · exact hh
       · exact List.mem_cons_of_mem _ hh
-    simp only [List.map_cons] at hq
+    simp only [List.map_cons] at h
     cases hr : resolveTerm β a with
     | conc e =>
-      simp only [hr, enumNewBinds] at hq
-      rcases enumNewBinds_keys β as vs nb0 q hq with h1 | h1
+      simp only [hr, enumNewBinds] at h
+      rcases enumNewBinds_keys β as vs nb0 nb h q hq with h1 | h1
       · exact Or.inl h1
       · exact Or.inr (lift h1)
     | anon =>
-      simp only [hr, enumNewBinds] at hq
-      rcases enumNewBinds_keys β as vs nb0 q hq with h1 | h1
+      simp only [hr, enumNewBinds] at h
+      rcases enumNewBinds_keys β as vs nb0 nb h q hq with h1 | h1
       · exact Or.inl h1
       · exact Or.inr (lift h1)
     | unb x =>
       have ha := resolveTerm_unb β a x hr
       subst ha
-      simp only [hr, enumNewBinds] at hq
-      rcases enumNewBinds_keys β as vs ((x, v) :: nb0) q hq with h1 | h1
-      · rcases List.mem_cons.mp h1 with rfl | h1
-        · exact Or.inr (by simp [varsOf])
-        · exact Or.inl h1
-      · exact Or.inr (lift h1)
+      simp only [hr, enumNewBinds] at h
+      cases hn : nb0.lookup x with
+      | some e =>
+        simp only [hn] at h
+        split at h
+        · rcases enumNewBinds_keys β as vs nb0 nb h q hq with h1 | h1
+          · exact Or.inl h1
+          · exact Or.inr (lift h1)
+        · cases h
+      | none =>
+        simp only [hn] at h
+        rcases enumNewBinds_keys β as vs ((x, v) :: nb0) nb h q hq with h1 | h1
+        · rcases List.mem_cons.mp h1 with rfl | h1
+          · exact Or.inr (by simp [varsOf])
+          · exact Or.inl h1
+        · exact Or.inr (lift h1)
 
 end ILV.Prov
